@@ -84,6 +84,19 @@ def Consistent (pcOf : Nat → Nat) : RExpr → Nat → Prop
   | .sub id _ body _, off => pcOf id = off ∧ Consistent pcOf body (off + 1)
   | .inl _ _, _ => True
 
+/-- `in` lists are non-empty (the parser guarantees it; an empty `Branch` would panic) -/
+def WfR : RExpr → Prop
+  | .empty => True
+  | .seq a b => WfR a ∧ WfR b
+  | .atom _ => True
+  | .backref _ => True
+  | .call _ _ => True
+  | .star _ _ body => WfR body
+  | .branch l r => WfR l ∧ WfR r
+  | .dec _ body => WfR body
+  | .sub _ _ body _ => WfR body
+  | .inl neg items => neg = true ∨ items ≠ []
+
 theorem genR_length (pcOf : Nat → Nat) (e : RExpr) : ∀ off nid, (genR pcOf e off nid).1.length = lenR e := by
   induction e with
   | empty => intro off nid; rfl
